@@ -167,6 +167,10 @@ func (t *Tokenizer) Reset() {
 
 	t.line = 0
 
+	// Forget the position memos: they describe the previous input
+	t.colLineStart, t.colIndex, t.colColumn = 0, 0, 0
+	t.wsLineStart, t.wsIndex, t.wsValid = 0, 0, false
+
 	// Don't reset keywords as they're constant
 	t.logger = nil
 
